@@ -173,6 +173,16 @@ class Unit:
         suffix_n = norm_path(suffix)
         c = [f for p, f in self.norm.items() if p == suffix_n or p.endswith("::" + suffix_n)]
         c = [f for f in c if f.get("dk") != "Closure"]
+        if not c and suffix_n.startswith(self.crate + "::"):
+            # the item may have moved into a sub-module of the crate: retry without the crate prefix
+            s2 = suffix_n[len(self.crate) + 2:]
+            c = [f for p, f in self.norm.items() if p.endswith("::" + s2) and f.get("dk") != "Closure"]
+        if len(c) > 1:
+            # prefer the unique shortest path (an item of the same name nested deeper is a different thing)
+            m = min(f["path"].count("::") for f in c)
+            short = [f for f in c if f["path"].count("::") == m]
+            if len(short) == 1:
+                c = short
         if len(c) == 1:
             return c[0]
         if not c:
@@ -1366,6 +1376,43 @@ def enclosing_loops(body):
                 a = strip(a)
                 if isinstance(a, dict) and a.get("k") == "closure":
                     out.append(a)
+    return out
+
+
+def args_reaching(unit, fn, target_method, target_arg, depth=2, _seen=None):
+    """Expressions in `fn` that end up as argument #target_arg of a call to method `target_method`, directly or through (at most `depth`)
+    same-crate helper functions that forward one of their parameters to it.  -> list of expression nodes of `fn`."""
+    _seen = _seen or set()
+    out = []
+    body = fn_body(fn)
+    for n in walk(body):
+        if n.get("k") not in ("mcall", "call"):
+            continue
+        name = n.get("m") if n.get("k") == "mcall" else (callee(n) or "").split("::")[-1]
+        args = n.get("a", [])
+        if name == target_method:
+            if len(args) > target_arg:
+                out.append(args[target_arg])
+            continue
+        if depth <= 0:
+            continue
+        cpath = norm_path(n.get("p") or callee(n) or "")
+        if not cpath or not cpath.startswith(unit.crate + "::") or cpath in _seen:
+            continue
+        cal = unit.norm.get(cpath)
+        if not cal or "hir" not in cal:
+            continue
+        params = [p_ for p_ in (cal.get("params") or [])]
+        off = 1 if (n.get("k") == "mcall" and params[:1] == ["self"]) else 0
+        inner = args_reaching(unit, cal, target_method, target_arg, depth - 1, _seen | {cpath})
+        for e in inner:
+            e = strip(e)
+            while isinstance(e, dict) and e.get("k") in ("addr", "deref", "paren"):
+                e = strip(list(children(e))[0])
+            if isinstance(e, dict) and e.get("k") == "local" and e.get("n") in params:
+                idx = params.index(e["n"]) - off
+                if 0 <= idx < len(args):
+                    out.append(args[idx])
     return out
 
 
